@@ -264,6 +264,7 @@ func runC04(c *Ctx) {
 	c.r0431(pk)
 	c.r0432(pk)
 	c.r0433(pk)
+	c.r0434(pk)
 	// positions remembered while rewriting a value list (background layers) stay valid: same rule as R10.5, css only
 	c.alsoUnder(map[string]string{"R10.5": "R04.8"}, func(construct string) bool {
 		return strings.HasPrefix(construct, "css.") || strings.HasPrefix(construct, "floor/")
@@ -2661,4 +2662,81 @@ func (c *Ctx) constString(info *types.Info, e ast.Expr) (string, bool) {
 		}
 	}
 	return "", false
+}
+
+// R04.34: the alpha of an eight-digit hex colour is dropped or replaced only when both of its digits were examined.
+func (c *Ctx) r0434(pk *packages.Package) {
+	const rule = "R04.34"
+	c.R.Rule(rule, "`#rrggbbaa` has two alpha digits; `#ff00000c` is a faint red, not the transparent black `#0000`. In css.minifyColor every assignment to the local that holds the colour's bytes which is dominated by the true outcome of `len(data) == 9` — the opaque colour `data[:7]`, the transparent black, the four-digit form — is dominated, for each of the two alpha positions 7 and 8, by an outcome that has compared that position for equality (with a constant or with the other position)")
+	info := pk.TypesInfo
+	fd := c.fn(rule, pk, "minifyColor")
+	if fd == nil {
+		return
+	}
+	g := c.graph(pk, fd)
+	// outcome of an atom that holds an equality: the true outcome of `==`, the false outcome of `!=`
+	holdsEq := func(q *flow.Node) *ast.BinaryExpr {
+		if (q.Kind != flow.KTrue && q.Kind != flow.KFalse) || q.Of == nil || q.Of.Kind != flow.KCond {
+			return nil
+		}
+		be, ok := ast.Unparen(q.Of.Expr).(*ast.BinaryExpr)
+		if !ok {
+			return nil
+		}
+		if be.Op == token.EQL && q.Kind == flow.KTrue || be.Op == token.NEQ && q.Kind == flow.KFalse {
+			return be
+		}
+		return nil
+	}
+	n := 0
+	for _, y := range g.Nodes {
+		var lhs *ast.Ident
+		if _, ok := assignsTo(y, func(l ast.Expr) bool {
+			id, isId := ast.Unparen(l).(*ast.Ident)
+			if isId && info.Uses[id] != nil {
+				if sl, isSl := info.TypeOf(id).Underlying().(*types.Slice); isSl && types.TypeString(sl.Elem(), nil) == "byte" {
+					lhs = id
+					return true
+				}
+			}
+			return false
+		}); !ok {
+			continue
+		}
+		obj := info.Uses[lhs]
+		// dominated by len(<that local>) == 9 ?
+		eight := false
+		examined := map[int64]bool{}
+		for _, q := range g.Nodes {
+			be := holdsEq(q)
+			if be == nil || !g.Dominates(q, y) {
+				continue
+			}
+			for _, side := range [][2]ast.Expr{{be.X, be.Y}, {be.Y, be.X}} {
+				if call, isCall := ast.Unparen(side[0]).(*ast.CallExpr); isCall && len(call.Args) == 1 && nospace(str(call.Fun)) == "len" && mentionsObject(info, call.Args[0], obj) {
+					if k, isK := intConst(info, side[1]); isK && k == 9 {
+						eight = true
+					}
+				}
+				if ix, isIx := ast.Unparen(side[0]).(*ast.IndexExpr); isIx && mentionsObject(info, ix.X, obj) {
+					if k, isK := intConst(info, ix.Index); isK {
+						examined[k] = true
+					}
+				}
+			}
+		}
+		if !eight {
+			continue
+		}
+		n++
+		var missing []string
+		for _, k := range []int64{7, 8} {
+			if !examined[k] {
+				missing = append(missing, fmt.Sprintf("%s[%d]", lhs.Name, k))
+			}
+		}
+		c.R.Check(len(missing) == 0, rule, fmt.Sprintf("css.minifyColor/%s = %s of an eight-digit colour examines both alpha digits", lhs.Name, nospace(str(y.Stmt.(*ast.AssignStmt).Rhs[0]))), c.pos(y.Stmt), "equalities on positions 7 and 8 dominate the assignment",
+			"the alpha of `#rrggbbaa` is dropped or replaced although "+strings.Join(missing, " and ")+" was not examined on the way: `a{color:#ff00000c}` (alpha 0c, faintly visible) becomes `#0000`, `#ff0000f0` would lose its alpha")
+	}
+	c.R.Floor(rule, "rewrites of an eight-digit hex colour", n, 3)
 }
